@@ -89,6 +89,8 @@ fn classify(r: &Result<usize, SingleflightError<String>>) -> Outcome {
 enum Ev {
     Call(usize),
     TaskRun(usize),
+    /// the supplied task of caller `id` has run to its end (recorded just before it returns, fails or panics)
+    TaskDone(usize),
     Ret(usize, Outcome, bool),
 }
 
@@ -103,6 +105,7 @@ async fn task(id: usize, kind: Kind, yields: u8, hist: Hist, free_running: bool)
             sched::yield_now("task.yield");
         }
     }
+    hist.lock().unwrap().push(Ev::TaskDone(id));
     match kind {
         Kind::Ok => Ok(id),
         Kind::Err => Err(format!("task-error-{id}")),
@@ -162,7 +165,7 @@ fn body(h: Harness, hist: Hist) {
         }
     }
     // a fresh call on every key after everything returned must run its own task (map is empty again)
-    let keys: std::collections::BTreeSet<u8> = h.callers.iter().map(|c| c.key).collect();
+    let keys: std::collections::BTreeSet<u8> = if h.callers.len() >= 4 { Default::default() } else { h.callers.iter().map(|c| c.key).collect() };
     for (j, k) in keys.into_iter().enumerate() {
         let id = 100 + j;
         hist.lock().unwrap().push(Ev::Call(id));
@@ -185,6 +188,7 @@ fn check_history(h: &Harness, ev: &[Ev]) -> Result<String, (String, String)> {
                 call_at.insert(*i, t);
             },
             Ev::TaskRun(i) => task_runs.push(*i),
+            Ev::TaskDone(_) => {},
             Ev::Ret(i, o, owner) => {
                 ret_at.insert(*i, t);
                 rets.insert(*i, (o.clone(), *owner));
@@ -193,9 +197,30 @@ fn check_history(h: &Harness, ev: &[Ev]) -> Result<String, (String, String)> {
     }
     // nested calls of parked callers happen only when the first poll was pending
     let n_nested = call_at.keys().filter(|id| **id >= 50 && **id < 100).count();
-    let n_expected = h.callers.len() + n_nested + h.callers.iter().map(|c| c.key).collect::<std::collections::BTreeSet<_>>().len();
+    // (the four-caller harness leaves out the closing fresh calls: its own late callers play that part)
+    let n_fresh = if h.callers.len() >= 4 { 0 } else { h.callers.iter().map(|c| c.key).collect::<std::collections::BTreeSet<_>>().len() };
+    let n_expected = h.callers.len() + n_nested + n_fresh;
     if rets.len() != n_expected {
         return Err(("C20/caller-never-returned".into(), format!("{} of {} calls returned", rets.len(), n_expected)));
+    }
+    // one flight per key at a time: while the supplied task of one caller is executing, no other caller's task
+    // of the same key starts (its caller would have had to join the flight in progress)
+    {
+        let mut running: Vec<usize> = vec![];
+        for e in ev {
+            match e {
+                Ev::TaskRun(i) => {
+                    if let Some(k) = key_of(*i) {
+                        if let Some(j) = running.iter().find(|j| key_of(**j) == Some(k)) {
+                            return Err(("C20/two-tasks-of-one-key-at-once".into(), format!("the task of caller {i} (key {k}) started while the task of caller {j} of the same key was still executing")));
+                        }
+                    }
+                    running.push(*i);
+                },
+                Ev::TaskDone(i) => running.retain(|j| j != i),
+                _ => {},
+            }
+        }
     }
     // tasks executed = owners
     let mut owners: Vec<usize> = rets.iter().filter(|(_, v)| v.1).map(|(k, _)| *k).collect();
@@ -304,6 +329,20 @@ fn harnesses(tier: Tier) -> Vec<Harness> {
         v.push(Harness {
             name: format!("parked-{k:?}-other-key"),
             callers: vec![c(0, k, 0), Caller { key: 1, kind: Kind::Ok, yields: 0, after: None, park_for: Some(2) }],
+        });
+    }
+    // a caller of another key returns between the completion of a flight's task and its owner's return; then late
+    // callers of the first key arrive: after the other key's caller returned, and after the first owner returned
+    // while the second flight's task is still executing
+    for y in [1u8, 0] {
+        v.push(Harness {
+            name: format!("other-key-returns-first-{y}"),
+            callers: vec![
+                c(1, Kind::Ok, 0),
+                c(0, Kind::Ok, 0),
+                Caller { key: 0, kind: Kind::Ok, yields: 1, after: Some(0), park_for: None },
+                Caller { key: 0, kind: Kind::Ok, yields: y, after: Some(1), park_for: None },
+            ],
         });
     }
     v.push(Harness {
@@ -565,15 +604,22 @@ fn main() {
                 // three-thread harnesses (3 callers, 2 keys, late caller): preemption bounding explodes with the
                 // number of blocking events (free choices at every join/pending/exit), so they are explored
                 // delay-bounded: every departure from the default scheduler costs 1; bound 2 (quick) / 3 (thorough).
-                let b = bound_override.unwrap_or(match (tier, three) {
-                    (Tier::Quick, false) => 2,
-                    (Tier::Quick, true) => 2,
-                    (Tier::Thorough, false) => 3,
-                    (Tier::Thorough, true) => 3,
+                // the four-caller harness needs four departures from the default (lowest id first) scheduler before two
+                // flights of one key can overlap, but only one of them is a preemption (the others happen where the
+                // running thread blocks or ends): and a task's voluntary yield is none): it is explored preemption-bounded, bound 0 (quick: every choice where
+                // the running thread blocks, yields or ends) / 1 (thorough)
+                let four = hs[i].name.starts_with("other-key-returns-first");
+                let b = bound_override.unwrap_or(match (tier, three, four) {
+                    (Tier::Quick, _, true) => 0,
+                    (Tier::Thorough, _, true) => 1,
+                    (Tier::Quick, false, _) => 2,
+                    (Tier::Quick, true, _) => 2,
+                    (Tier::Thorough, false, _) => 3,
+                    (Tier::Thorough, true, _) => 3,
                 });
                 let _ = per;
                 let deadline = t0 + budget;
-                let (ex, dec, outs) = explore_one(&hs[i], b, three, deadline, tier.pick(80_000, 1_500_000), &mut p, &mut m);
+                let (ex, dec, outs) = explore_one(&hs[i], b, three && !four, deadline, tier.pick(80_000, 1_500_000), &mut p, &mut m);
                 p.sample(json!({"harness": hs[i].to_json(), "bound": b, "schedules": ex, "distinct_outcomes": outs.len()}));
                 p.max(&format!("max:bound[{}]", if three { "3-thread" } else { "2-caller" }), b as u64);
                 results.lock().unwrap().push((i, p, m, ex, dec, outs));
@@ -627,7 +673,7 @@ fn main() {
     run.all = out;
     run.finish(
         schedules as u64,
-        "every schedule with at most 2 (quick) / 3 (thorough) preemptions of each two-caller harness, and every schedule with at most 2 / 3 departures from the default scheduler (delay bounding) of each three-thread harness (three callers, two keys, late caller) (2-3 callers x task kinds ok/err/panic x 0/1 task yields, two keys, late caller); distinct = distinct (harness, per-caller outcome vector); states = scheduling decisions taken, transitions = scheduler steps",
+        "every schedule with at most 2 (quick) / 3 (thorough) preemptions of each two-caller harness, and every schedule with at most 2 / 3 departures from the default scheduler (delay bounding) of each three-thread harness (three callers, two keys, late caller; the four-caller harness in which another key's caller returns between a task's end and its owner's return is explored preemption-bounded, 0 / 1 preemptions) (2-3 callers x task kinds ok/err/panic x 0/1 task yields, two keys, late caller); distinct = distinct (harness, per-caller outcome vector); states = scheduling decisions taken, transitions = scheduler steps",
         capped == 0,
     );
 }
